@@ -3,16 +3,28 @@
    printed (Tree.Inorder), plain OCaml arithmetic on indices into it, and the comparator — not the
    extracted model. *)
 
+let nat (a : int) (b : int) = compare a b
+let big = 1 lsl 61      (* stands for math.MaxInt: only the sign of a comparison is ever used *)
+
 let cmp_of s : int -> int -> int =
-  let nat a b = compare a b in
-  if s = "n" then nat
-  else if s = "r" then (fun a b -> nat b a)
-  else if String.length s > 1 && s.[0] = 'm' then begin
+  let modk () =
     let k = int_of_string (String.sub s 1 (String.length s - 1)) in
     let k = if k <= 0 then 1 else k in
-    let md a = ((a mod k) + k) mod k in
-    fun a b -> nat (md a) (md b)
-  end else failwith "bad comparator"
+    fun a -> ((a mod k) + k) mod k in
+  let ext a b = if a < b then - big else if a > b then big else 0 in
+  if s = "n" then nat
+  else if s = "r" then (fun a b -> nat b a)
+  else if s = "a" then (fun a b -> a - b)
+  else if s = "t" then (fun a b -> 3 * (a - b))
+  else if s = "h" then (fun a b -> (a - b) * (1 lsl 32))
+  else if s = "A" then (fun a b -> b - a)
+  else if s = "D" then (fun a b -> 7 * (b - a))
+  else if s = "x" then ext
+  else if s = "X" then (fun a b -> ext b a)
+  else if String.length s > 1 && s.[0] = 'm' then (let md = modk () in fun a b -> nat (md a) (md b))
+  else if String.length s > 1 && s.[0] = 'M' then (let md = modk () in fun a b -> md a - md b)
+  else if String.length s > 1 && s.[0] = 'R' then (let md = modk () in fun a b -> md b - md a)
+  else failwith "bad comparator"
 
 let split_on c s = if s = "" then [] else String.split_on_char c s
 
@@ -65,6 +77,8 @@ let eval inp =
         match op.[0] with
         | 'K' -> let k = int_of_string (String.sub op 3 (String.length op - 3)) in
           regs.(r) <- ok (M.tree_cursor zcmp t k); touch r; items := state () :: !items
+        | 'G' -> let k = int_of_string (String.sub op 3 (String.length op - 3)) in
+          items := (match M.get zcmp k t with Some x -> "g:" ^ string_of_int x ^ ",1" | None -> "g:0,0") :: !items
         | 'O' -> regs.(r) <- M.tree_root t; touch r; items := state () :: !items
         | 'Z' -> regs.(r) <- M.CNil; touch r; items := state () :: !items
         | 'E' -> regs.(r) <- M.CEmpty; touch r; items := state () :: !items
@@ -158,9 +172,15 @@ let spec prop inp out =
           if String.length it >= 5 && String.sub it 0 5 = "panic" then raise (Fail ("panic at " ^ op));
           if it = "hang" then raise (Fail ("hang at " ^ op));
           let r = reg_of op in
-          touch r;
           let c = op.[0] in
+          if c <> 'G' then touch r;
           (match c with
+           | 'G' ->
+             (* Tree.Get(k): the stored key equivalent to k and true, or the zero key and false *)
+             let k = int_of_string (String.sub op 3 (String.length op - 3)) in
+             let j = find_equiv k in
+             let want = if j < 0 then "g:0,0" else "g:" ^ string_of_int l.(j) ^ ",1" in
+             if it <> want then fail r op (Printf.sprintf "Get: got %s, the key list gives %s" it want)
            | 'i' | 'j' ->
              if String.length it < 2 || String.sub it 0 2 <> "i:" then fail r op "bad item";
              let ks = ints_of (String.sub it 2 (String.length it - 2)) in
